@@ -111,6 +111,17 @@ class Hist:
         self.nested = [[S("car"), S(nl)], [S("vector-ref"), S(nv), 0], [S("car"), [S("car"), [S("cdr"), [S("cdr"), S(nl)]]]]]
         self.lits += [nv]
         self.lists += []
+        if r.random() < 0.3:
+            # a global procedure that assigns its own name from inside its body, and a recursive one that is reassigned from outside while an alias survives:
+            # the assignment changes the one global binding, which the body, the alias and later callers all use
+            F.append(parse("(define (once!) (set! once! (lambda () 'sold-out)) 'last-ticket)"))
+            F.append(parse("(define (count-down n) (if (= n 0) 0 (+ 1 (count-down (- n 1)))))"))
+            F.append(parse("(define old-count-down count-down)"))
+            F.append(parse("(define (make-replacer) (lambda (v) (set! count-down (lambda (n) v)) v))"))
+            F.append(parse("(define replace! (make-replacer))"))
+            self.selfrep = True
+        else:
+            self.selfrep = False
         self.big = None
         if r.random() < 0.25:
             # a vector of hundreds of slots with an alias: writes and reads at both ends and in the middle
@@ -129,6 +140,9 @@ class Hist:
         while len(F) < steps:
             c = r.random()
             wrote = True
+            if self.selfrep and r.random() < 0.12:
+                F.append(r.choice([parse("(once!)"), parse("(list (old-count-down 2) (count-down 3))"), [S("replace!"), self.uniq()], parse("(list (old-count-down 1) (count-down 1) (eq? old-count-down count-down))")]))
+                continue
             if self.cyc and r.random() < 0.08:
                 c1, c2 = self.cyc
                 inner = [S("vector-ref"), S(r.choice([c1, c2])), 2]
